@@ -19,11 +19,11 @@ GO = "/opt/veriftools/go1.26.8/bin/go"
 ENV = dict(os.environ, GOFLAGS="-mod=mod", GOPROXY="off", GOTOOLCHAIN="local")
 FILEMAP = {
     "merge.go": ["C11", "C12", "C13", "C17", "C18"],
-    "ingest.go": ["C05", "C06", "C07", "C09", "C10", "C18", "C26"],
+    "ingest.go": ["C05", "C06", "C07", "C08", "C09", "C10", "C18", "C26"],
     "flush.go": ["C05", "C06", "C07", "C08", "C17"],
     "engine.go": ["C05", "C08", "C09", "C27"],
     "chan_helpers.go": ["C05", "C07", "C08"],
-    "query_exec.go": ["C21", "C22", "C23", "C24", "C14", "C01"],
+    "query_exec.go": ["C21", "C22", "C23", "C24", "C14", "C01", "C02"],
     "query_results.go": ["C20", "C22", "C23"],
     "query_handles.go": ["C21"],
     "row_matcher.go": ["C01", "C02", "C03"],
@@ -171,6 +171,24 @@ def main():
                 results.append(r)
                 print(r, flush=True)
         json.dump(results, open(OUT + "/results.json", "w"), indent=0)
+    elif cmd == "rerun":
+        # re-run every mutant no check has reported yet (after harness changes), all mapped checks, and merge
+        surv = {c["id"]: c for c in json.load(open(OUT + "/survivors.json"))["survivors"]}
+        results = json.load(open(OUT + "/results.json"))
+        caught = {cid for cid, prop, rc, secs, msg in results if rc == 1}
+        todo = [c for cid, c in surv.items() if cid not in caught]
+        if "--files" in opt:
+            todo = [c for c in todo if c["file"] in files]
+        keep = [r for r in results if r[0] in caught]
+        tasks = [(c, p) for c in todo for p in FILEMAP[c["file"]]]
+        print(len(todo), "mutants", len(tasks), "runs", flush=True)
+        new = []
+        with cf.ThreadPoolExecutor(jobs) as ex:
+            for r in ex.map(run_check, tasks):
+                new.append(list(r))
+                print(r, flush=True)
+                json.dump(keep + new, open(OUT + "/results2.json", "w"), indent=0)
+        json.dump(keep + new, open(OUT + "/results.json", "w"), indent=0)
     elif cmd == "report":
         surv = {c["id"]: c for c in json.load(open(OUT + "/survivors.json"))["survivors"]}
         results = json.load(open(OUT + "/results.json"))
